@@ -232,6 +232,15 @@ def run(tier):
     cases += nesting_cases([1, 2, 4, 8, 16, 24, 32, 40, 48, 56, 64] if tier == "quick" else list(range(1, 65)) + [96, 128])
     cases += odd_schema_cases()
     cases += text_cases(tier)
+    # the structural families once more under other option sets (termination must not hinge on an option)
+    OPTION_SETS = [dict(DEFAULT_OPTS, normalization="rust", other_variant=True, skip_none=True),
+                   dict(DEFAULT_OPTS, deprecation="deny", mode="derive", struct_ident="Op", operation_name="Op")]
+    more = []
+    for c in cases:
+        if c["family"] in ("spread_cycle", "input_cycle", "odd_schema", "odd_json_schema", "no_implementors", "selection_nesting", "selection_nesting_abstract", "inline_nesting", "list_nesting") and "options" not in c:
+            for oi, o in enumerate(OPTION_SETS):
+                more.append(dict(c, options=o, desc=c["desc"] + " [option set %d]" % (oi + 1)))
+    cases += more
     reqs = []
     for c in cases:
         if "schema_bytes" in c:
@@ -255,7 +264,7 @@ def run(tier):
         outcomes[st] = outcomes.get(st, 0) + 1
         fam.setdefault(c["family"], {}).setdefault(st, 0)
         fam[c["family"]][st] += 1
-        distinct.add((q["schema_path"], q.get("query_path") or sha(q.get("query_text", ""))))
+        distinct.add((q["schema_path"], q.get("query_path") or sha(q.get("query_text", "")), json.dumps(q["options"], sort_keys=True)))
         label = {"family": c["family"], "desc": c["desc"], "schema_path": q["schema_path"],
                  "query": c.get("query") if "query" in c else "<bytes %s>" % q.get("query_path")}
         if "schema" in c and len(c["schema"]) < 1500:
@@ -280,7 +289,8 @@ def run(tier):
                 "fragment outside the cycle (directly / through a field)} x {same type, alternating types}; input-type cycles of length 1-4 x 4 edge kinds x @oneOf; selection / inline "
                 "/ list nesting up to 64 (thorough: every depth, plus 96 and 128); degenerate schemas (SDL and JSON); every "
                 "byte-prefix and every single-token deletion of seed queries and of the CORE schema (SDL) and of a JSON "
-                "schema. distinct = distinct (schema file, query text) pairs",
+                "schema; the structural families also under two other option sets (rust normalization + other-variant + skip-none; "
+                "deny + derive mode). distinct = distinct (schema file, query text, options) triples",
         "families": fam, "distinct_outcomes": outcomes, "exhaustive": False,
         "samples": pick_samples(samples, 10),
     }
